@@ -715,6 +715,20 @@ def check_backtracker(ctx, bt: FuncInfo):
     for k in ("tuple|collective", "tuple|point"):
         if k not in seen:
             ctx.violation(rule, k, bt.loc(), f"backtracking never records a {k.split('|')[1]} anomaly")
+    # the helper returns (collective anomalies, point anomalies) in that order (the drivers unpack them so)
+    allk = {}
+    for p in rets:
+        for e in p.events:
+            if e.kind == "list_append" and isinstance(e.data["value"], TupleV) and len(e.data["value"].items) == 2 and all(isinstance(x, Num) for x in e.data["value"].items):
+                lo, hi = e.data["value"].items
+                is_pt = "starts" not in repr(lo.nf)
+                rvp = p.value
+                if isinstance(rvp, TupleV):
+                    for pos, x in enumerate(rvp.items):
+                        if x is e.data["lst"]:
+                            allk.setdefault(pos, set()).add("point" if is_pt else "collective")
+    ok_order = allk.get(0) == {"collective"} and allk.get(1) == {"point"}
+    ctx.check(ok_order, rule, "result-order", bt.loc(), "the helper returns (collective anomalies, point anomalies) in that order", found={k: sorted(v) for k, v in sorted(allk.items())}, expected="{0: collective, 1: point}")
 
 
 def _strip_int(nf):
